@@ -342,8 +342,9 @@ PROPS = {
 # pre-loaded with a value left over from some earlier, unrelated call (ERANGE = 34, ENOMEM = 12) before
 # every library call under test.  Results must not depend on it (errno is per-thread state that
 # persists across calls; a library function may only act on an errno value it has provoked itself).
-for _pid in ("C01", "C02", "C03", "C10", "C12", "C13", "C14", "C16"):
+for _pid in ("C01", "C02", "C03", "C10", "C12", "C13", "C14", "C16", "C20"):
     _base = PROPS[_pid]["runs"][0]
+    PROPS[_pid]["rule"] = PROPS[_pid]["rule"] + "; two secondary runs repeat the enumeration (at quick-tier sizes) with errno pre-loaded with a stale ERANGE resp. ENOMEM before every library call under test - no result may depend on it"
     for _val, _tag in ((34, "stale-erange"), (12, "stale-enomem")):
         _r = dict(_base)
         _r["args"] = list(_base.get("args", [])) + ["errno_pre=%d" % _val, "size=quick"]
